@@ -1458,6 +1458,7 @@ func (l *lexer) scanCmdSubst(r rune) bool {
 			done:     make(chan struct{}),
 			cancel:   make(chan struct{}),
 			heredoc:  heredoc{c: make(chan struct{}, 1)},
+			aliases:  l.aliases,
 			line:     l.line,
 			col:      l.col,
 		}
@@ -1481,6 +1482,7 @@ func (l *lexer) scanCmdSubst(r rune) bool {
 		}
 		// apply changes
 		l.comments = append(l.comments, ll.comments...)
+		l.aliases = ll.aliases
 		l.line = ll.line
 		l.col = ll.col
 		l.pos = ll.pos
